@@ -60,7 +60,8 @@ pub fn fresh_truth(g: &GGM, rep: &mut Report) -> Fresh {
     vals.push(out);
   }
   let mut seeds = HashMap::new();
-  for k in 1..=8usize {
+  // (level 0: an implementation may keep the root itself until the first puncture)
+  for k in 0..=8usize {
     for v in 0..(1u32 << k) {
       if let Some(s) = g.verif_node_seed(&node_path(k, v)) {
         seeds.insert((k, v), s);
@@ -82,7 +83,7 @@ fn eval1(g: &GGM, x: u8) -> Option<Vec<u8>> {
 fn forbidden(fr: &Fresh, p: &BTreeSet<u8>) -> HashSet<Vec<u8>> {
   let mut f = HashSet::new();
   for x in p {
-    for k in 1..=8usize {
+    for k in 0..=8usize {
       let v = (*x as u32) & ((1u32 << k) - 1);
       if let Some(s) = fr.seeds.get(&(k, v)) {
         f.insert(s.clone());
